@@ -317,9 +317,15 @@ deriving DecidableEq, Repr
 
 def sHosts : Str := ['h', 'o', 's', 't', 's']
 def sVars : Str := ['v', 'a', 'r', 's']
-def sExclude : Str := "insights_signature_exclude".toList
-def sSignature : Str := "insights_signature".toList
-def sRevoked : Str := "revoked_playbooks".toList
+/-- "insights_signature_exclude" -/
+def sExclude : Str :=
+  ['i', 'n', 's', 'i', 'g', 'h', 't', 's', '_', 's', 'i', 'g', 'n', 'a', 't', 'u', 'r', 'e', '_', 'e', 'x', 'c', 'l', 'u', 'd', 'e']
+/-- "insights_signature" -/
+def sSignature : Str :=
+  ['i', 'n', 's', 'i', 'g', 'h', 't', 's', '_', 's', 'i', 'g', 'n', 'a', 't', 'u', 'r', 'e']
+/-- "revoked_playbooks" -/
+def sRevoked : Str :=
+  ['r', 'e', 'v', 'o', 'k', 'e', 'd', '_', 'p', 'l', 'a', 'y', 'b', 'o', 'o', 'k', 's']
 def sHash : Str := ['h', 'a', 's', 'h']
 
 /-- `x in PLAYBOOK_DYNAMIC_LABELS` -/
